@@ -381,6 +381,12 @@ func (bs *baseServer) Handshake(transportName string, ctx *types.HttpContext) (*
 		unregister()
 	}
 
+	// the application has the session: what the client sent in the meantime
+	// (it answers the open packet at once) is read and dispatched from here on.
+	// Deferred: a listener that panics (net/http recovers the handler, the
+	// hijacked connection stays) must not leave a registered session deaf.
+	defer transport.Start()
+
 	bs.Emit("connection", socket)
 
 	return nil, transport
